@@ -44,6 +44,19 @@ CLAIMED["C01"] = dict(
          "not compute values. Device plugins are not loaded. Pinned findings: see KNOWN_FINDINGS.txt.",
     technique="TLC-generated programs replayed on both back ends against a TLA+ evaluator; lock-step trace validation with TLC",
 )
+CLAIMED["C06"] = dict(
+    category="model_checking",
+    text="Runtime.tla models boot / tick / hot swap to the same source as both runtimes perform it (cells carried over, clock "
+         "kept, global initialisers re-run). TLC generates every stateful program of the LangGen budget and explores every "
+         "history over the allowed split points and swap counts; on the model the swap is a stutter on <<cells, now>> "
+         "(action property) and the outputs equal the uninterrupted run (invariant). Every history is replayed through the "
+         "real hot-swap paths of the VM and of the WASM runtime (with the CLI's own payload composition) and compared per "
+         "sample. Shipped stateful sources: swapped instance vs uninterrupted twin, validated by Lockstep.tla.",
+    design_ref="DESIGN.md §6 C06",
+    note="Scope as stated by the property: state in self/mem/delay cells reachable from dsp (no scheduler, no global closures "
+         "or mutated globals). Swaps are driven through DspRuntime::try_hot_swap single-threaded, not through the audio thread.",
+    technique="TLA+ runtime model checked with TLC; TLC-generated histories replayed on VM and WASM; lock-step trace validation",
+)
 NOT_YET = {}
 
 checks = []
